@@ -2,6 +2,7 @@ import Proofs.MetaState
 import Proofs.MetaDelete
 import Gen.LinkDecisions
 import Proofs.RelateShape
+import Proofs.MetaShapes
 
 /-!
   C02 — Links stay symmetric, bounded and atomic through any operation history.
@@ -113,6 +114,16 @@ theorem all_invariants_reachable (sch : Schema) (hok : SchemaOk sch) (ops : List
 theorem live_only_reachable (sch : Schema) (hok : SchemaOk sch) (ops : List Op) (hd : Dom sch init ops) :
     ∀ i x y, y ∈ ((run sch ops).links i).src x → live (run sch ops) x ∧ live (run sch ops) y :=
   (all_invariants_reachable sch hok ops hd).liveOnly
+
+/-- the hypothesis `SchemaOk` of the delete / liveness theorems holds for every association shape the property names
+    (1:1, 1:M, M:1 unconditional, reflexive with phrases, association class with two formalisations, subtype /
+    supertype sharing an identifier, two associations sharing a referential attribute) and for a class with two
+    reflexive associations carrying the same phrases — so those theorems are not vacuous on any of them; a reflexive
+    association whose two phrases are equal is NOT SchemaOk (example in Proofs/MetaShapes.lean) -/
+theorem shapes_are_schemaOk :
+    SchemaOk shapeOneOne ∧ SchemaOk shapeOneMany ∧ SchemaOk shapeManyOneUncond ∧ SchemaOk shapeReflexive ∧
+    SchemaOk shapeAssocClass ∧ SchemaOk shapeSubsuper ∧ SchemaOk shapeSharedRef ∧ SchemaOk shapeTwoReflexive :=
+  shapes_schemaOk
 
 /-- each referential attribute reads as the identifying attribute of the linked instance and as unset when
     unlinked (one formalising association); a class's own id reads as the stored id; a referential attribute
